@@ -34,6 +34,29 @@ if h:
                         o.write(ln)
             mism = c.compare_obs(impl, m1, "stdsec")
             if mism:
+                # the model is the independent implementation of the property statement: a file of the real
+                # Writer on which it cannot authenticate, or which it does not decrypt to the written values,
+                # is a failing input of C10 (not only a broken tie)
+                meta = {}
+                mp = os.path.join(c.work, "ameta.txt")
+                if os.path.exists(mp):
+                    for ln in open(mp, errors="replace"):
+                        k, _, v = ln.rstrip("\n").partition(" ")
+                        meta[k] = v
+                seen = set()
+                for k, a, b in mism:
+                    base = k.split(".")[0]
+                    if not base.startswith("a") or base in seen:
+                        continue
+                    seen.add(base)
+                    if "." not in k:
+                        c.fail("independent-handler-authentication",
+                               "the independent implementation of the standard security handler cannot authenticate on a file the Writer produced (Writer/Reader: %s, independent: %s)" % (a[:40], b[:40]),
+                               {"file": meta.get(base, base)})
+                    else:
+                        c.fail("independent-handler-decryption",
+                               "the independent implementation decrypts a stored string/stream of the Writer's file to something else than was written (item %s)" % k,
+                               {"file": meta.get(base, base), "written": a[:80], "independent": b[:80]})
                 kinds = sorted({k[0] for k, _, _ in mism})
                 c.tie_broken(
                     "the independent implementation (Coq model of ISO 32000 7.6) and the Writer disagree on %d observations (case kinds %s: a=authenticate+decrypt every stored string/stream, d=/Encrypt entries, w=which objects are encrypted)"
